@@ -3,7 +3,7 @@
 import os, shutil, subprocess, sys
 sys.path.insert(0, os.path.join(os.path.dirname(os.path.abspath(__file__)), "lib"))
 import vf, units as U
-contracts = "--contracts" in sys.argv
+contracts = "--no-contracts" not in sys.argv
 feats = [a.split("=")[1] for a in sys.argv if a.startswith("--features=")]
 scratch, lost = vf.prepare("dev", U.UNITS, want_contracts=contracts)
 print("scratch", scratch, "lost", lost)
